@@ -1,5 +1,14 @@
 //! Worker child processes (filled in with C11 / C09).
 
-pub fn child_main(_args: &[String]) -> i32 {
+pub fn child_main(args: &[String]) -> i32 {
+	if args.first().map(|s| s.as_str()) == Some("proofhash") {
+		// debug aid: is bulletproof creation deterministic across processes?
+		crate::world::init_global();
+		let o = crate::world::OutRef { amount: 12345, key: 77, cb: false };
+		let out = crate::world::LIB.output(&o);
+		let h = crate::refmmr::blake(&[&out.proof.proof[..out.proof.plen]]);
+		println!("{}", h.iter().map(|b| format!("{:02x}", b)).collect::<String>());
+		return 0;
+	}
 	2
 }
